@@ -145,6 +145,24 @@ ExtOkButMirrorless(r) ==
   ExtShapeOk(r) /\ \A a \in r.lo[1]..r.hi[1] : \A v \in r.lo[2]..r.hi[2] : \A t \in r.lo[3]..r.hi[3] :
      (ExtWraps(ExtD(r), v) % 2 = 0 \/ ExtHasMirror(ExtD(r), t)) => ExtElemOk(r, a, v, t)
 
+\* interpolate_projdata with linear B-splines on direct sinograms of one scanner (values * 2^8, exact dyadic weights)
+InterpOk(r) ==
+  LET base == [N |-> r.N, R |-> r.R, span |-> r.span, ge |-> FALSE, maxDelta |-> (IF r.span = 1 THEN 0 ELSE 1), mash |-> r.mash,
+               tofMash |-> 0, maxT |-> 0, minTang |-> r.minTang, maxTang |-> r.maxTang, minSeg |-> 0, maxSeg |-> 0]
+      ci == base
+      co == [base EXCEPT !.span = r.ospan, !.maxDelta = (IF r.ospan = 1 THEN 0 ELSE 1), !.mash = r.omash, !.minTang = r.ominTang, !.maxTang = r.omaxTang]
+      d == [minAx |-> 0, maxAx |-> r.numAx - 1, nv |-> r.nv, minT |-> r.minTang, maxT |-> r.maxTang]
+      nt == r.maxTang - r.minTang + 1
+      ont == r.omaxTang - r.ominTang + 1
+      E(a, v, t) == LET x == ExtSource(d, a, v, t) IN r.in[(x[1] * r.nv + x[2]) * nt + (x[3] - r.minTang) + 1]
+      den == StepQ(ci, 0) * 2 * ci.mash
+  IN /\ LegalConfig(ci) /\ LegalConfig(co) /\ r.minTang = -r.maxTang
+     /\ r.numAx = NumAx(ci, 0) /\ r.nv = NumViews(ci) /\ r.onumAx = NumAx(co, 0) /\ r.onv = NumViews(co)
+     /\ ~r.err /\ r.ok
+     /\ Len(r.out) = r.onumAx * r.onv * ont
+     /\ \A a \in 0..(r.onumAx - 1) : \A v \in 0..(r.onv - 1) : \A t \in r.ominTang..r.omaxTang :
+           Abs(r.out[(a * r.onv + v) * ont + (t - r.ominTang) + 1] * den - 256 * LinInterp2(E, ci, co, a, v, t)) <= den
+
 \* ScatterSimulation::downsample_scanner: the template it makes is DownsampleGeom (integer maps only; axial length kept)
 DownOk(r) ==
   LET cc == CfgOf(r)  d == DownsampleGeom(cc, r.newR, r.newN) IN
@@ -166,6 +184,7 @@ Explains(r) ==
     [] r.e = "Inv" -> InvOk(r)
     [] r.e = "Ext" -> ExtOk(r)
     [] r.e = "Down" -> DownOk(r)
+    [] r.e = "Interp" -> InterpOk(r)
     [] ~Ctx -> FALSE
     [] r.e = "Ev" -> EvOk(r)
     [] r.e = "Hist" /\ r.which = "fine" ->
